@@ -25,7 +25,7 @@ def run(tier):
             wide = ck.rng.random() < 0.5
             lex = gram.rand_lex(ck.rng, regdef_mode=ck.rng.choice(["none", "single", "multi"]), wide=wide)
             toks = gram.tokens_of_lex(lex)
-            terms = toks + [(2, ck.rng.choice(["+", "if", "a b", "(", "x'y"]))]
+            terms = toks + [(2, ck.rng.choice(["+", "if", "a b", "(", "x'y", "a\\nb", "\\\\", "\\x2b", "q\\\"q"]))]
             syn = gram.rand_syn(ck.rng, terms, acts=False, p_error=0.1) if ck.rng.random() < 0.7 else []
             g = {"lex": lex, "syn": syn}
             base = gram.render(g)
